@@ -12,6 +12,7 @@ package main
 
 import (
 	"context"
+	"encoding/json"
 	"fmt"
 	"math/rand"
 	"os"
@@ -923,4 +924,122 @@ func main() {
 		},
 		Rule: "real engine.Engine, one pool (some engines with 2-3 pools sharing the counters, half of them with one controller interleaving the instances of all pools): matrix instances x shared/per-instance x tokens x ammo bound x discard_overflow with random profile shape (once/const/composite/line/step), overdue tokens, shot duration, startup (once/ramp), provider (mock/real JSON DecodeProvider+AmmoQueue/real Num) and aggregator (mock/real phout); random cells, some with a fault plan (the k-th Shoot panics); paced profiles with a startup ramp that is still running when ammo ends; seeded controlled scheduling (random/sticky/lock-step choice of the next instance operation), half of it with the goroutine that starts the instances as one more controlled participant (sctl); the same on a worker built from the same source with scheduling points inside the schedule's Next/Left (fine: an instance can be parked between the atomic operations of one call); exhaustive enumeration of all operation interleavings of 2-instance pools with <=1 token at both granularities and with the starter (larger ones up to a cap); all schedules with <=1 (quick) / <=2 (thorough) preemptions of 2-4 instance pools; the same pools written as YAML text and read by the real config reader (cli.readConfig, or yaml.v2 + config.DecodeAndValidate) with the profile in every accepted spelling (mapping, list, block list, explicit composite, split list), the factories of the plugin registry, 1-3 pools; uncontrolled runs on a worker built with the race detector (real operations outside the recorder's mutex); non-trivial = at least one event logged; distinct input lines",
 	})
+	writeDimensions()
+}
+
+// writeDimensions adds to stats.json (written by drv.Main) the distribution of the generated inputs dimension by dimension
+// (instances, profile mode / kind / size, ammo bound, provider, ammo value kind, aggregator, scheduling mode, route …) and of
+// what the runs hit (how they ended, which events occurred), so that a dimension that is constant or nearly so is visible.
+func writeDimensions() {
+	out := "."
+	for k := 1; k < len(os.Args); k++ {
+		a := strings.TrimLeft(os.Args[k], "-")
+		if a == "out" && k+1 < len(os.Args) {
+			out = os.Args[k+1]
+		} else if strings.HasPrefix(a, "out=") {
+			out = strings.TrimPrefix(a, "out=")
+		}
+	}
+	raw, err := os.ReadFile(out + "/cases.tsv")
+	if err != nil {
+		return
+	}
+	dims := map[string]map[string]int{}
+	add := func(d, v string) {
+		if dims[d] == nil {
+			dims[d] = map[string]int{}
+		}
+		dims[d][v]++
+	}
+	bucket := func(v string) string {
+		n := atoi(v)
+		switch {
+		case v == "":
+			return "absent"
+		case n < 0:
+			return "unbounded"
+		case n <= 3:
+			return v
+		case n <= 8:
+			return "4-8"
+		case n <= 20:
+			return "9-20"
+		}
+		return ">20"
+	}
+	for _, ln := range strings.Split(string(raw), "\n") {
+		f := strings.SplitN(ln, "\t", 3)
+		if len(f) < 3 {
+			continue
+		}
+		m, o := drv.KV(f[1]), drv.KV(f[2])
+		add("instances", bucket(m["inst"]))
+		add("shared", m["shared"])
+		add("tokens", bucket(m["tokens"]))
+		add("ammo", bucket(m["ammo"]))
+		add("discard", m["discard"])
+		add("overdue-every", m["past"])
+		kind := m["sched"]
+		if strings.HasPrefix(kind, "cz:") {
+			kind = "cz"
+		} else if strings.HasPrefix(kind, "paced") {
+			kind = "paced"
+		}
+		add("profile", kind)
+		for _, d := range []string{"prov", "aggr", "av", "cfg", "rpsy", "stay", "fine", "sctl", "race", "pools", "panic"} {
+			v := m[d]
+			if v == "" {
+				v = "-"
+			}
+			if d == "panic" && v != "-" {
+				v = "k"
+			}
+			add(d, v)
+		}
+		st := m["start"]
+		if strings.HasPrefix(st, "ramp") {
+			st = "ramp"
+		}
+		add("startup", st)
+		add("scheduling", strings.SplitN(m["ctl"], ":", 2)[0])
+		res := o["res"]
+		switch {
+		case strings.HasPrefix(f[2], "CRASH"), strings.HasPrefix(f[2], "HANG"), strings.HasPrefix(f[2], "PANIC"):
+			res = strings.SplitN(f[2], " ", 2)[0]
+		case strings.HasPrefix(res, "err:"):
+			res = "err"
+			if strings.Contains(o["res"], "shoot_panic") {
+				res = "err:shoot-panic"
+			}
+		}
+		add("result", res)
+		log := o["log"]
+		for _, ev := range []struct{ name, mark string }{{"out-of-ammo", "e"}, {"schedule-finished-while-holding", "x"}, {"discard", "d"}, {"shot", "s"}} {
+			hit := false
+			for _, tok := range strings.Split(log, ",") {
+				if strings.HasPrefix(tok, ev.mark) {
+					hit = true
+					break
+				}
+			}
+			if hit {
+				add("events-hit", ev.name)
+			}
+		}
+		if o["started"] != "" && o["started"] != o["cap"] && o["cap"] != "" {
+			add("events-hit", "start-cut")
+		}
+	}
+	sraw, err := os.ReadFile(out + "/stats.json")
+	if err != nil {
+		return
+	}
+	var stats map[string]any
+	if json.Unmarshal(sraw, &stats) != nil {
+		return
+	}
+	stats["dimensions"] = dims
+	if b, err := json.MarshalIndent(stats, "", " "); err == nil {
+		_ = os.WriteFile(out+"/stats.json", b, 0o644)
+	}
 }
